@@ -618,6 +618,7 @@ package node
 // application behaviour's Start/Terminate callbacks (A-USER: the callbacks themselves are user code).
 
 //@ ghostheap spawnSeq() int
+//@ ghostheap spawnedPid(i int) gen.PID
 //@ ghostheap killAsked(p gen.PID) int
 //@ ghostheap exitAsked(p gen.PID) int
 //@ ghostheap appStartCb(b gen.ApplicationBehavior) int
@@ -674,8 +675,8 @@ package node
 // new pids; the process table stays well-formed (A-SPAWN).
 //@ func (n *node) spawn
 //@   trusted
-//@   modifies spawnSeq(), smHas(n.processes), smVal(n.processes), smHas(n.names), smVal(n.names)
-//@   ensures spawnSeq() == old(spawnSeq()) + 1 && tablesWF(n)
+//@   modifies spawnSeq(), spawnedPid(spawnSeq()), smHas(n.processes), smVal(n.processes), smHas(n.names), smVal(n.names)
+//@   ensures spawnSeq() == old(spawnSeq()) + 1 && tablesWF(n) && spawnedPid(old(spawnSeq())) == result.0
 
 //@ func (time.Time).Unix
 //@   trusted
@@ -688,13 +689,14 @@ package node
 //@ func (a *application) start
 //@   props C17
 //@   mode int
-//@   modifies a.state, a.reason, a.mode, a.stopped, a.parent, a.started, spawnSeq(), appStartCb, smHas(a.node.processes), smVal(a.node.processes), smHas(a.node.names), smVal(a.node.names), killAsked, appStartAsked(a), mapof(a.group.m), a.group
+//@   modifies a.state, a.reason, a.mode, a.stopped, a.parent, a.started, spawnSeq(), spawnedPid, appStartCb, smHas(a.node.processes), smVal(a.node.processes), smHas(a.node.names), smVal(a.node.names), killAsked, appStartAsked(a), mapof(a.group.m), a.group
 //@   ensures_ghost appStartAsked(a) == old(appStartAsked(a)) + 1
 //@   ensures [tables_kept] tablesWF(a.node)
 //@   requires [wired] a.node != nil && a.node.log != nil && a.behavior != nil && tablesWF(a.node)
 //@   loop 4 invariant [idx] -1 <= rangeindex && rangeindex < len(a.spec.Group) && tablesWF(a.node) && a.state == 2
 //@   loop 4 invariant [one_spawn_per_item_so_far] spawnSeq() == old(spawnSeq()) + rangeindex + 1
 //@   loop 4 invariant [no_callback_yet] appStartCb(a.behavior) == old(appStartCb(a.behavior))
+//@   loop 4 invariant [members_are_registered_as_they_are_spawned] forall i int :: old(spawnSeq()) <= i && i < spawnSeq() ==> isMember(a, spawnedPid(i))
 //@   at call spawn assert [members_in_spec_order] spawnSeq() - old(spawnSeq()) >= 0 && spawnSeq() - old(spawnSeq()) < len(a.spec.Group) && factory == a.spec.Group[spawnSeq() - old(spawnSeq())].Factory && options.Register == a.spec.Group[spawnSeq() - old(spawnSeq())].Name && options.Application == a.spec.Name
 //@   at call spawn assert [new_life_is_set_up_before_members_run] a.mode == caller_mode && a.reason == nil && a.stopped != nil && fresh(a.stopped)
 //@   at range 1 invariant [kill_seen] forall k gen.PID :: killAsked(k) == old(killAsked(k)) + (rseen(1, k) ? 1 : 0)
@@ -787,7 +789,7 @@ package node
 //@ func (n *node) ApplicationStart
 //@   props C17
 //@   mode int
-//@   modifies depReady, appStartAsked, spawnSeq(), appStartCb, smHas(n.processes), smVal(n.processes), smHas(n.names), smVal(n.names), killAsked
+//@   modifies depReady, appStartAsked, spawnSeq(), spawnedPid, appStartCb, smHas(n.processes), smVal(n.processes), smHas(n.names), smVal(n.names), killAsked
 //@   requires [tables] appStartWF(n)
 //@   ensures [tables_kept] appStartWF(n)
 //@   ensures_ghost (result == nil || result == gen.ErrApplicationRunning) ==> depReady(name)
